@@ -23,6 +23,10 @@ pub struct Op {
     pub body_ms: u64,
     /// which pool (0 or 1)
     pub pool: usize,
+    /// fault `task_panic`: the task body crashes (panics) 1 = as soon as it has started,
+    /// 2 = after its sleep; 0 = runs to its end
+    #[serde(default)]
+    pub crash: u8,
 }
 #[derive(Clone, Debug, Serialize, Deserialize)]
 pub struct Shutdown {
@@ -58,6 +62,10 @@ pub struct Scn {
     /// (start time ms, permanent workers, linger ms); their pool index follows the initial pools
     #[serde(default)]
     pub late_pools: Vec<(u64, usize, u64)>,
+    /// the respawnable group thread crashes (panics) instead of returning, and one-shot group
+    /// threads crash at the end of their body
+    #[serde(default)]
+    pub group_threads_crash: bool,
 }
 
 pub struct C29;
@@ -100,9 +108,20 @@ impl Prop for C29 {
                     or_spawn: chance(r, 65),
                     body_ms: if chance(r, 50) { 0 } else { dur_grid(r, l) },
                     pool,
+                    crash: 0,
                 });
             }
             submitters.push(ops);
+        }
+        let crashes = chance(r, 25);
+        if crashes {
+            for ops in submitters.iter_mut() {
+                for o in ops.iter_mut() {
+                    if chance(r, 40) {
+                        o.crash = range(r, 1, 2) as u8;
+                    }
+                }
+            }
         }
         let mut late_pools: Vec<(u64, usize, u64)> = vec![];
         if chance(r, 20) {
@@ -163,6 +182,7 @@ impl Prop for C29 {
             early_awaiter_ms: if chance(r, 30) { Some(dur_grid(r, 1000)) } else { None },
             start_waiter_ms: if chance(r, 20) { Some(dur_grid(r, 1000)) } else { None },
             late_pools,
+            group_threads_crash: crashes && chance(r, 50),
         }
     }
 
@@ -245,6 +265,11 @@ impl Prop for C29 {
         for i in 0..s.submitters.len() {
             for j in 0..s.submitters[i].len() {
                 let o = &s.submitters[i][j];
+                if o.crash != 0 {
+                    let mut c = s.clone();
+                    c.submitters[i][j].crash = 0;
+                    out.push(c);
+                }
                 if o.body_ms > 0 {
                     let mut c = s.clone();
                     c.submitters[i][j].body_ms = 0;
@@ -265,6 +290,11 @@ impl Prop for C29 {
         if !s.oneshots.is_empty() {
             let mut c = s.clone();
             c.oneshots.clear();
+            out.push(c);
+        }
+        if s.group_threads_crash {
+            let mut c = s.clone();
+            c.group_threads_crash = false;
             out.push(c);
         }
         if s.early_awaiter_ms.is_some() {
@@ -301,11 +331,11 @@ impl Prop for C29 {
         rec.preemptions > 0 || rec.clock_preemptions > 0
     }
     fn rule() -> String {
-        "one execution = one seeded scenario (pools with 0-2 permanent workers, linger 0/1ms/1s/15s, 1-4 submitters x 1-3 submit/submit_or_spawn calls on a time grid aligned with the linger value, optional pool/group shutdown actors (a pool may be shut down twice), optionally a pool started while the scenario runs - after another pool of the group was shut down on its own, so that its slot in the group's collection is reused -, optional respawnable group thread that exits prematurely, one-shot group threads, a thread waiting in await_shutdown / await_start_of_shutdown before any shutdown, optional spurious wake-ups and thread-spawn failures) under one seeded schedule (random or PCT depth 1-4; DES or eager clock). Non-trivial = at least one preemption of a runnable task or one eager timer firing; distinct = distinct (scenario, recorded schedule) hash".into()
+        "one execution = one seeded scenario (pools with 0-2 permanent workers, linger 0/1ms/1s/15s, 1-4 submitters x 1-3 submit/submit_or_spawn calls on a time grid aligned with the linger value, optional pool/group shutdown actors (a pool may be shut down twice), optionally a pool started while the scenario runs - after another pool of the group was shut down on its own, so that its slot in the group's collection is reused -, optional respawnable group thread that exits prematurely, one-shot group threads, a thread waiting in await_shutdown / await_start_of_shutdown before any shutdown, optional spurious wake-ups and thread-spawn failures; in a quarter of the scenarios task bodies and group threads crash (panic) - on permanent workers, which are then respawned with throttling, and on auxiliary workers) under one seeded schedule (random or PCT depth 1-4; DES or eager clock). Non-trivial = at least one preemption of a runnable task or one eager timer firing; distinct = distinct (scenario, recorded schedule) hash".into()
     }
     fn assumptions() -> Vec<String> {
         vec![
-            "task bodies do not panic (a panic aborts a simulated execution; the panicking() branches of the Drop handlers are not simulated)".into(),
+            "a crashing (panicking) task body is simulated as a contained unwind (fault task_panic): the thread unwinds through quandary's drop handlers with thread::panicking() true in that thread only, and ends; a crash counts as the task having run".into(),
             "'thread has exited' is observed as: the thread's closure has returned (end_thread bookkeeping done, no further user code)".into(),
             "step-bound exhaustion is a violation only under DES + fair random scheduling without spurious wake-ups; otherwise inconclusive".into(),
         ]
@@ -314,13 +344,13 @@ impl Prop for C29 {
         vec!["src/thread.rs (ThreadGroup, ThreadPool, respawn logic, pool_worker_loop)"]
     }
     fn stub_components() -> Vec<&'static str> {
-        vec!["OS threads -> shuttle coroutines", "std::sync::{Mutex,Condvar} -> simrt::sync (timed Condvar on a simulated clock)", "std::time::Instant -> simrt::time", "thread creation failure -> fault spawn_fail"]
+        vec!["OS threads -> shuttle coroutines", "std::sync::{Mutex,Condvar} -> simrt::sync (timed Condvar on a simulated clock)", "std::time::Instant -> simrt::time", "thread creation failure -> fault spawn_fail", "panicking thread -> contained unwind inside the coroutine (fault task_panic; vendored shuttle-engine patch)"]
     }
     fn engine() -> &'static str {
         "E1 simrt-threads"
     }
     fn expected_probes() -> Vec<&'static str> {
-        vec!["condvar_wait_timed_out", "c29_respawned_after_premature_exit", "c29_early_awaiter_returned", "c29_submit_rejected_after_shutdown", "c29_spawn_failed", "c29_task_ran_after_pool_shutdown", "c29_submit_blocked_until_shutdown", "c29_late_pool_started"]
+        vec!["condvar_wait_timed_out", "c29_respawned_after_premature_exit", "c29_early_awaiter_returned", "c29_submit_rejected_after_shutdown", "c29_spawn_failed", "c29_task_ran_after_pool_shutdown", "c29_submit_blocked_until_shutdown", "c29_late_pool_started", "thread_crash_contained"]
     }
 }
 
@@ -381,15 +411,24 @@ fn run(scn: &Scn) {
                 let task = first + k;
                 let Some(pool) = pools[op.pool].lock().unwrap().clone() else { continue };
                 let (started, finished, after_await, late) = (started.clone(), finished.clone(), after_await.clone(), late.clone());
-                let body_ms = op.body_ms;
+                let (body_ms, crash) = (op.body_ms, op.crash);
                 let body = move || {
                     if after_await.load(SeqCst) {
                         late.fetch_add(1, SeqCst);
                     }
                     started[task].fetch_add(1, SeqCst);
                     simrt::event("task_body_start", task as u64, 0);
+                    if crash == 1 {
+                        simrt::thread::crash();
+                    }
                     if body_ms > 0 {
                         simrt::thread::sleep(Duration::from_millis(body_ms));
+                    }
+                    if crash == 2 {
+                        if after_await.load(SeqCst) {
+                            late.fetch_add(1, SeqCst);
+                        }
+                        simrt::thread::crash();
                     }
                     finished[task].fetch_add(1, SeqCst);
                     if after_await.load(SeqCst) {
@@ -463,7 +502,7 @@ fn run(scn: &Scn) {
     // --- group-level actors ----------------------------------------------------------
     let respawn_runs = Arc::new(AtomicU32::new(0));
     if let Some(exits) = scn.respawnable_exits {
-        let (g2, runs, after_await, late) = (group.clone(), respawn_runs.clone(), after_await.clone(), late_activity.clone());
+        let (g2, runs, after_await, late, crash) = (group.clone(), respawn_runs.clone(), after_await.clone(), late_activity.clone(), scn.group_threads_crash);
         let r = group.start_respawnable(Some("extra".into()), move || {
             if after_await.load(SeqCst) {
                 late.fetch_add(1, SeqCst);
@@ -471,6 +510,8 @@ fn run(scn: &Scn) {
             let n = runs.fetch_add(1, SeqCst);
             if n >= exits {
                 g2.await_start_of_shutdown();
+            } else if crash {
+                simrt::thread::crash();
             }
             // returning before shutdown = premature exit: the group respawns the thread (throttled)
         });
@@ -482,7 +523,7 @@ fn run(scn: &Scn) {
     let oneshot_ok: Arc<Vec<AtomicU32>> = Arc::new((0..scn.oneshots.len()).map(|_| AtomicU32::new(0)).collect());
     for (k, (at, body_ms)) in scn.oneshots.iter().enumerate() {
         horizon_ms = horizon_ms.max(at + body_ms);
-        let (group, ran, ok, after_await, late, at, body_ms) = (group.clone(), oneshot_ran.clone(), oneshot_ok.clone(), after_await.clone(), late_activity.clone(), *at, *body_ms);
+        let (group, ran, ok, after_await, late, at, body_ms, crash) = (group.clone(), oneshot_ran.clone(), oneshot_ok.clone(), after_await.clone(), late_activity.clone(), *at, *body_ms, scn.group_threads_crash);
         hs.push(shuttle::thread::spawn(move || {
             simrt::thread::sleep(Duration::from_millis(at));
             let (ran2, after2, late2) = (ran.clone(), after_await.clone(), late.clone());
@@ -497,6 +538,9 @@ fn run(scn: &Scn) {
                 ran2[k].fetch_add(100, SeqCst);
                 if after2.load(SeqCst) {
                     late2.fetch_add(1, SeqCst);
+                }
+                if crash {
+                    simrt::thread::crash();
                 }
             });
             match r {
@@ -563,6 +607,10 @@ fn run(scn: &Scn) {
                 viol("accepted-task-never-ran", format!("task {} accepted by {} on pool {} ran 0 times by the time await_shutdown returned", r.task, if scn_op(scn, r.task).or_spawn { "submit_or_spawn" } else { "submit" }, r.pool));
             } else if st > 1 || fi > 1 {
                 viol("accepted-task-ran-twice", format!("task {} started {} times, finished {} times", r.task, st, fi));
+            } else if scn_op(scn, r.task).crash != 0 {
+                if fi != 0 {
+                    viol("crashed-task-finished", format!("task {} crashes by construction but reached its end", r.task));
+                }
             } else if fi == 0 {
                 viol("task-unfinished-at-await-return", format!("task {} started but had not finished when await_shutdown returned", r.task));
             }
